@@ -22,6 +22,7 @@ import numpy as np
 from ..linalg import np_conserved as npc
 from ..models.model import CouplingModel
 from ..networks.mps import MPS
+from ..networks.terms import ExponentiallyDecayingTerms, MultiCouplingTerms
 from ..tools.misc import inverse_permutation
 
 __all__ = ['ExactDiag', 'get_full_wavefunction', 'get_numpy_Hamiltonian', 'get_scipy_sparse_Hamiltonian']
@@ -455,7 +456,7 @@ def _get_Hamiltonian_from_couplings(model, sparse: bool, undo_sort_charge: bool)
     ct = model.all_coupling_terms()
     ct.remove_zeros()
     edt = model.exp_decaying_terms
-    term_list = ot.to_TermList() + ct.to_TermList() + edt.to_TermList(cutoff=0.0)
+    all_terms = _terms_with_op_strings(ot, ct, edt)
 
     sites = model.lat.mps_sites()
     dims = [s.leg.ind_len for s in sites]
@@ -470,7 +471,7 @@ def _get_Hamiltonian_from_couplings(model, sparse: bool, undo_sort_charge: bool)
         kron = np.kron
         eye_0 = np.eye(1)  # identity on zero sites. starting point for doing kron.
 
-    for s, terms in zip(term_list.strength, term_list.terms):
+    for s, terms in all_terms:
         last_site = -1
         t = eye_0
         for op, i in terms:
@@ -487,4 +488,53 @@ def _get_Hamiltonian_from_couplings(model, sparse: bool, undo_sort_charge: bool)
         if len(sites_since_last_op) > 0:
             t = kron(t, np.eye(np.prod([dims[n] for n in sites_since_last_op])))
         H = H + s * t
+    if model.explicit_plus_hc:
+        # the terms of the model represent only "half" of the Hamiltonian
+        H = H + H.conj().T
     return H
+
+
+def _terms_with_op_strings(ot, ct, edt):
+    """Collect all terms as ``(strength, [(opname, i), ...])``, ordered by site `i`.
+
+    Unlike a :class:`~tenpy.networks.terms.TermList`, the returned terms *include* the operator
+    strings (e.g. Jordan-Wigner strings) acting on the sites between the actual operators.
+    """
+    terms = [(strength, term) for term, strength in ot.to_TermList()]
+    if isinstance(ct, MultiCouplingTerms):
+        terms_left = ct._fill_term_list(ct.terms_left, ct._connect_left)
+        terms_right = ct._fill_term_list(ct.terms_right, ct._connect_right)
+        for tL, tR, c in zip(terms_left, terms_right, ct.connections):
+            if c is None:
+                continue
+            switchLR, op_switch, shift, strength = c
+            term = []
+            next_sites = [i for i, _, _ in tL[1:]] + [switchLR]
+            for (i, op_i, op_str), i_next in zip(tL, next_sites):
+                term.append((op_i, i))
+                term.extend([(op_str, k) for k in range(i + 1, i_next)])
+            term.append((op_switch, switchLR))  # either an operator of the term or the string
+            i_prev = switchLR
+            for i, op_i, op_str in reversed(tR):  # here, `op_str` is the string left of `i`
+                term.extend([(op_str, k) for k in range(i_prev + 1, i + shift)])
+                term.append((op_i, i + shift))
+                i_prev = i + shift
+            terms.append((strength, term))
+    else:
+        for i, d1 in ct.coupling_terms.items():
+            for (op_i, op_str), d2 in d1.items():
+                for j, d3 in d2.items():
+                    for op_j, strength in d3.items():
+                        term = [(op_i, i)] + [(op_str, k) for k in range(i + 1, j)] + [(op_j, j)]
+                        terms.append((strength, term))
+    # exponentially decaying terms: convert one by one to know the `op_string` of each
+    for exp_terms, attr in [(edt.exp_decaying_terms, 'exp_decaying_terms'), (edt.centered_terms, 'centered_terms')]:
+        for exp_term in exp_terms:
+            single = ExponentiallyDecayingTerms(edt.L)
+            getattr(single, attr).append(exp_term)
+            op_str = exp_term[-1]
+            for term, strength in single.to_TermList(cutoff=0.0):
+                (op_i, i), (op_j, j) = sorted(term, key=lambda t: t[1])  # centered terms can have j < i
+                term = [(op_i, i)] + [(op_str, k) for k in range(i + 1, j)] + [(op_j, j)]
+                terms.append((strength, term))
+    return terms
